@@ -199,8 +199,41 @@ def F11():
         return False, repr(e)
     return r1 == 11 and r2 is None, (r1, r2)
 
+def F12():
+    """AsyncDAG: an async-thread node dispatched (asyncio.ensure_future) before a main-thread node fails is started
+    after the call has raised (the pending task stays in the user's event loop)."""
+    import asyncio
+    ran = []
+
+    @xn(resource=Resource.async_thread, priority=10)
+    def a():
+        ran.append("a")
+
+    @xn(resource=Resource.main_thread, priority=1)
+    def m():
+        raise ValueError("boom")
+
+    @dag(is_async=True, max_concurrency=2)
+    def d():
+        a()
+        m()
+
+    async def main():
+        raised = None
+        try:
+            await d()
+        except BaseException as e:
+            raised = e
+        at_raise = list(ran)
+        await asyncio.sleep(0.2)
+        return raised, at_raise, list(ran)
+
+    raised, at_raise, later = asyncio.run(main())
+    return raised is not None and later == at_raise, (repr(raised)[:80], at_raise, later)
+
+
 if __name__ == "__main__":
-    names = sys.argv[1:] or ["F1","F2","F3","F4","F5","F6","F7","F8","F9","F11"]
+    names = sys.argv[1:] or ["F1","F2","F3","F4","F5","F6","F7","F8","F9","F11","F12"]
     bad = 0
     for n in names:
         try:
